@@ -363,6 +363,11 @@ func offer(w *tj.Writer, r *rand.Rand, idx int) {
 		fa = 11 + r.Intn(4)
 		fb = 3 + r.Intn(2)
 		behaviour = "honest"
+		if r.Intn(3) == 0 {
+			// deep: the common block lies 12-16 rounds below the node's tip - beyond the first batch of heights the block
+			// synchronisation samples for the common block, inside what its retries cover
+			fa = 36 + r.Intn(12)
+		}
 	}
 	slot := 1
 	fail := func(e error) {
